@@ -197,7 +197,21 @@ CHECKS["C02"] = dict(
     ref="DESIGN.md section 5 C02, section 3.2",
     technique="TLC enumeration of frame streams (Frames.tla) + byte-level replay into Server.Handle / p9.Client with consumption counting")
 
+CHECKS["C17"] = dict(
+    engine="segments", category="model_checking",
+    note=("Trusted base: TLC; the transcription of the two receive algorithms in spec/Segments.tla; the chunk reader and the "
+          "socket-pair driver of harness/cmd/segments (FIONREAD polling to obtain the intended partial fills)."),
+    text=("Segments.tla transcribes io.ReadAtLeast + the generic Buffers.ReadFrom loop and the recvmsg path with its iovec "
+          "consumption loop at the level of byte positions; TLC checks for every delivery (cut points bounded, stream complete "
+          "or ending anywhere) that both deliver exactly the frames' byte ranges or a connection error, never a partial message; "
+          "every enumerated delivery is replayed into Server.Handle through an io.Reader returning exactly those chunks (both "
+          "EOF conventions) and through a real AF_UNIX stream socket pair."),
+    ref="DESIGN.md section 5 C17, section 3.3",
+    technique="TLC exhaustive check of both receive algorithms over all bounded chunkings (Segments.tla) + replay through io.Reader and socket pair")
+
 ENGINES = [
+    {"name": "segments", "path": "spec/Segments.tla + spec/MC_Segments.tla + harness/cmd/segments", "serves_properties": ["C17"],
+     "kind_free_text": "two receive algorithms transcribed; all bounded chunkings checked by TLC and replayed on both real paths"},
     {"name": "frames", "path": "spec/Frames.tla + spec/MC_Frames.tla + harness/cmd/frames", "serves_properties": ["C02"],
      "kind_free_text": "receiver decision table; all short streams enumerated by TLC and replayed at byte level"},
     {"name": "transp", "path": "spec/Wire.tla + spec/ClientFile.tla + harness/wirecodec + harness/cmd/transp",
